@@ -13,9 +13,12 @@ def args_of(d):
     return ["%s=%s" % (k, v) for k, v in d.items()]
 
 
-def run_bundle(binp, bundle, timeout):
+def run_bundle(binp, bundle, timeout, deadline=None):
     """one harness invocation; returns (bundle, [json records], error or None, secs)"""
     t0 = time.time()
+    if deadline is not None and t0 > deadline:
+        # the tier's wall-clock budget is spent: the bundle is NOT run (listed in evidence, never counted as decided)
+        return bundle, [], "skipped: wall budget of the tier spent before this bundle started", 0.0
     env = dict(os.environ)
     if bundle.get("_solver"):
         env["SYMX_SOLVER"] = bundle["_solver"]
@@ -47,10 +50,10 @@ def _parse(out):
     return recs
 
 
-def run_all(binp, bundles, timeout, progress=None):
+def run_all(binp, bundles, timeout, progress=None, deadline=None):
     results = []
     with cf.ThreadPoolExecutor(max_workers=NPROC) as ex:
-        futs = [ex.submit(run_bundle, binp, b, timeout) for b in bundles]
+        futs = [ex.submit(run_bundle, binp, b, timeout, deadline) for b in bundles]
         for i, f in enumerate(cf.as_completed(futs)):
             results.append(f.result())
             if progress:
@@ -147,6 +150,7 @@ class Agg:
         self.nontrivial = set()
         self.prop_obligations = 0
         self.diff_candidates = []  # (case, inputs of one explored path) for differential validation
+        self.skipped = 0  # bundles not started because the tier's wall-clock budget was spent
 
     def mine(self, label):
         # un-labelled panics of the code under test (index out of bounds, unwrap on None,
@@ -154,6 +158,9 @@ class Agg:
         return label == "panic" or any(label.startswith(p) for p in self.prefixes)
 
     def add(self, bundle, recs, err, secs, nontrivial_rule):
+        if err and err.startswith("skipped"):
+            self.skipped += 1
+            return
         if err:
             # a bundle-level timeout only loses the sub-cases that did not report
             self.machinery.append(dict(bundle={k: v for k, v in bundle.items()}, error=err)) if not err.startswith("timeout") else self.incomplete.append(dict(bundle=bundle, reason=err))
